@@ -439,3 +439,142 @@ Example C11_debug_upgrader_nonvacuous :
   /\ fu_on_request w = Some all /\ fu_on_response w = Some (u_out (fu_res w))
   /\ fu_conn w = [] /\ head_end all = Some (length req).
 Proof. vm_compute. repeat split; reflexivity. Qed.
+(* ====================== quoted-string parameter values ====================== *)
+Require Import HsAgreeQ HsQuotedProofs.
+
+(* the exact set of parameter values that survive httphead's writer / scanner pair [qv_ok]:
+   non-empty, and either a token or free of backslashes and not ending in a double quote or DEL
+   (every other octet anywhere: 0..31, 128..255, space, separators, interior quotes and DELs).
+   For such a value WriteOptions of the one option  name; k=v  is read back by ParseOptions as
+   exactly that option ... *)
+Theorem C11_quoted_value_roundtrip : forall name k v, tokb name = true -> tokb k = true -> qv_ok v = true ->
+  parse_options (write_options [mkOpt name [(k, v)]]) = ([mkOpt name [(k, v)]], true).
+Proof. exact quoted_value_roundtrip. Qed.
+Print Assumptions C11_quoted_value_roundtrip.
+
+(* ... and for no other non-empty value: the frontier is exact (a value ending in a backslash is
+   not even lexed: the closing quote counts as escaped; a value with a backslash elsewhere, or
+   ending in a quote or DEL, comes back shorter) *)
+Theorem C11_quoted_value_frontier : forall name k v, tokb name = true -> tokb k = true -> v <> [] ->
+  parse_options (write_options [mkOpt name [(k, v)]]) = ([mkOpt name [(k, v)]], true) -> qv_ok v = true.
+Proof. exact quoted_value_frontier. Qed.
+Print Assumptions C11_quoted_value_frontier.
+
+(* whole lists: token names and attributes, values absent / token / quoted inside the frontier
+   [qv_opts] come back unchanged; with values that are merely lexable (token, or not ending in a
+   backslash) [lx_opts] the list comes back NORMALISED: each value v replaced by nrm_value v = what
+   RemoveByte leaves of the escaped form *)
+Theorem C11_option_list_roundtrip_quoted : forall os, qv_opts os = true -> os <> [] ->
+  parse_options (write_options os) = (os, true).
+Proof. exact option_list_roundtrip_q. Qed.
+Print Assumptions C11_option_list_roundtrip_quoted.
+
+Theorem C11_option_list_normalised : forall os, lx_opts os = true -> os <> [] ->
+  parse_options (write_options os) = (nrm_opts os, true).
+Proof. exact option_list_normalised. Qed.
+Print Assumptions C11_option_list_normalised.
+
+(* C11_agreement_extensions with wf_param relaxed: parameter values of the client's offers AND of
+   the server's answers may be absent, tokens, or arbitrary octet strings inside the frontier qv_ok
+   that contain no LF (a raw LF is not escaped by the writer and would end the header line)
+   [extq_ok: qv_opts and nl_free on the offers; the Negotiate table returns no error on the offers,
+   its non-declining answers are qv_opts, nl_free and carry offered names].  Same conclusion: both
+   succeed over any chunkings and buffer sizes, same subprotocol, same extensions with the same
+   parameters in the same order, trailing bytes readable. *)
+Theorem C11_agreement_extensions_quoted : forall stext sel ext neg ps exts host uri nonce B1 B2 r1 r2 trailing,
+  1 <= B1 -> 1 <= B2 -> req_ok host uri nonce ps -> extq_ok neg exts = true ->
+  flat r1 = d_request (dialer_upgrade (dcfgx ps exts) host uri nonce B2 r2) ->
+  flat r2 = u_out (upgrader stext (ucfgx sel ext neg) B1 r1) ++ trailing ->
+  let u := upgrader stext (ucfgx sel ext neg) B1 r1 in
+  let d := dialer_upgrade (dcfgx ps exts) host uri nonce B2 r2 in
+  u_err u = None /\ d_err d = None /\ d_hs d = u_hs u
+  /\ u_hs u = mkHs (agreed_protocol sel ps) (agreed_exts ext neg exts)
+  /\ flat (d_reader d) = trailing.
+Proof. exact agreement_extensions_quoted. Qed.
+Print Assumptions C11_agreement_extensions_quoted.
+
+(* outside the frontier, for every lexable value (token, or not ending in a backslash; no LF) on
+   offers and answers [extl_ok]: both peers still succeed, the upgrader reports what its filter /
+   Negotiate table selected from the SCANNED offers [seen_exts = agreed_exts on nrm_opts exts], and
+   the dialer reports the scanned form of THAT ... *)
+Theorem C11_both_succeed_dialer_reports_scanned :
+  forall stext sel ext neg ps exts host uri nonce B1 B2 r1 r2 trailing,
+  1 <= B1 -> 1 <= B2 -> req_ok host uri nonce ps -> extl_ok neg exts = true ->
+  flat r1 = d_request (dialer_upgrade (dcfgx ps exts) host uri nonce B2 r2) ->
+  flat r2 = u_out (upgrader stext (ucfgx sel ext neg) B1 r1) ++ trailing ->
+  let u := upgrader stext (ucfgx sel ext neg) B1 r1 in
+  let d := dialer_upgrade (dcfgx ps exts) host uri nonce B2 r2 in
+  u_err u = None /\ d_err d = None
+  /\ u_hs u = mkHs (agreed_protocol sel ps) (seen_exts ext neg exts)
+  /\ d_hs d = mkHs (agreed_protocol sel ps) (nrm_opts (seen_exts ext neg exts))
+  /\ flat (d_reader d) = trailing.
+Proof. exact both_succeed_dialer_reports_scanned. Qed.
+Print Assumptions C11_both_succeed_dialer_reports_scanned.
+
+(* ... so agreement after normalisation holds exactly when the upgrader's selection is a fixed
+   point of write-then-scan (e.g. whenever the scanned offers / the answers are inside qv_ok; the
+   offer value  a\b  is seen as  a  by both); it is NOT true in general, see C11_quoted_refuted *)
+Theorem C11_agreement_after_normalisation_iff :
+  forall stext sel ext neg ps exts host uri nonce B1 B2 r1 r2 trailing,
+  1 <= B1 -> 1 <= B2 -> req_ok host uri nonce ps -> extl_ok neg exts = true ->
+  flat r1 = d_request (dialer_upgrade (dcfgx ps exts) host uri nonce B2 r2) ->
+  flat r2 = u_out (upgrader stext (ucfgx sel ext neg) B1 r1) ++ trailing ->
+  let u := upgrader stext (ucfgx sel ext neg) B1 r1 in
+  let d := dialer_upgrade (dcfgx ps exts) host uri nonce B2 r2 in
+  u_err u = None /\ d_err d = None /\ flat (d_reader d) = trailing
+  /\ (d_hs d = u_hs u <-> nrm_opts (seen_exts ext neg exts) = seen_exts ext neg exts).
+Proof. exact agreement_iff_stable. Qed.
+Print Assumptions C11_agreement_after_normalisation_iff.
+
+(* FINDING F23.  The agreement clause of C11 is false for quoted-string values outside the
+   frontier: the dialer offers  x; k=<61 22 22>  (the three octets a, double quote, double quote), the upgrader's
+   Extension filter accepts every offer.  All hypotheses of the previous two theorems hold, both
+   peers succeed, the upgrader reports k = <61 22> and the dialer reports k = <61>: the wire carries
+   the escaped forms and RemoveByte loses the byte behind a backslash in last-but-one position, once
+   on each side.  Same with DEL in place of the quote, and with a Negotiate function that answers
+   with a value ending in a quote or DEL.  Reproduced on the Go code (observation kind A11Q). *)
+Theorem C11_quoted_refuted :
+  exists stext sel ext neg ps exts host uri nonce B1 B2 r1 r2 trailing,
+  1 <= B1 /\ 1 <= B2 /\ req_ok host uri nonce ps /\ extl_ok neg exts = true
+  /\ flat r1 = d_request (dialer_upgrade (dcfgx ps exts) host uri nonce B2 r2)
+  /\ flat r2 = u_out (upgrader stext (ucfgx sel ext neg) B1 r1) ++ trailing
+  /\ let u := upgrader stext (ucfgx sel ext neg) B1 r1 in
+     let d := dialer_upgrade (dcfgx ps exts) host uri nonce B2 r2 in
+     u_err u = None /\ d_err d = None
+     /\ hs_exts (u_hs u) = [mkOpt (bs "x") [(bs "k", [97; 34])]]
+     /\ hs_exts (d_hs d) = [mkOpt (bs "x") [(bs "k", [97])]]
+     /\ d_hs d <> u_hs u.
+Proof. exact quoted_refuted. Qed.
+Print Assumptions C11_quoted_refuted.
+
+(* non-vacuity: the offers  x  with parameters q = <needs, quoting; a=b>, e = <61 22 62> (a, double quote, b),
+   z = <00 c8 0d 7f 21>  and  y; t=tok; f  (values with space, comma, semicolon, equals sign, interior
+   quote, control bytes, interior DEL) against a Negotiate table that echoes x and answers y with
+   y; r=<1 2> : extq_ok holds, both succeed bytewise through 16-byte buffers with exactly those
+   extensions.  And qv_ok / nrm_value on samples. *)
+Example C11_quoted_nonvacuous :
+  let x := mkOpt (bs "x") [(bs "q", bs "needs, quoting; a=b"); (bs "e", [97; 34; 98]); (bs "z", [0; 200; 13; 127; 33])] in
+  let y := mkOpt (bs "y") [(bs "t", bs "tok"); (bs "f", [])] in
+  let y' := mkOpt (bs "y") [(bs "r", bs "1 2")] in
+  let exts := [x; y] in
+  let host := bs "server.example.com" in
+  let uri := bs "/chat" in
+  let nonce := bs "dGhlIHNhbXBsZSBub25jZQ==" in
+  let neg := Some (fun o => if bytes_eqb (o_name o) (bs "x") then NegOk o else NegOk y') in
+  let bytewise := fun l : list byte => mkReader [] (map (fun b => [b]) l) TEof in
+  let req := write_upgrade_request (dcfgx [] exts) host uri nonce in
+  let u := upgrader (fun _ => []) (ucfgx None None neg) 16 (bytewise req) in
+  let d := dialer_upgrade (dcfgx [] exts) host uri nonce 16 (bytewise (u_out u ++ [129; 1; 120])) in
+  req_ok host uri nonce []
+  /\ (extq_ok neg exts = true
+      /\ u_err u = None /\ d_err d = None /\ hs_exts (u_hs u) = [x; y'] /\ d_hs d = u_hs u
+      /\ flat (d_reader d) = [129; 1; 120]
+      /\ map qv_ok [bs "a b"; [97; 34; 98]; [97; 34]; [97; 127]; [97; 92; 98]; [97; 92]; []; [10]; bs "tok"]
+         = [true; true; false; false; false; false; false; true; true]
+      /\ map nrm_value [[97; 34; 34]; [97; 34]; [97; 92; 98]; [92; 32]] = [[97; 34]; [97]; [97]; []]).
+Proof.
+  intros x y y' exts host uri nonce neg bytewise req u d. split.
+  - unfold req_ok, is_tok, clean, host, uri, nonce.
+    repeat (split || constructor); try discriminate; reflexivity.
+  - vm_compute. repeat split; reflexivity.
+Qed.
